@@ -198,6 +198,7 @@ def run(fb, rep, tier):
     r07_7(fb, rep)
     r07_8(fb, rep)
     r07_9(fb, rep)
+    r07_10(fb, rep)
 
 
 GETTER_QUANT = {'lhsRational': 'lhs', 'rhsRational': 'rhs', 'lowerRational': 'low', 'upperRational': 'up', 'objRational': 'obj',
@@ -630,3 +631,27 @@ def r07_9(fb, rep):
                   '%s decides with %s whether / what to store: an exact nonzero below the floating-point epsilon is dropped from the rational LP' % (f.short, render(hits[0])[:60] if hits else ''))
     if k < 25:
         raise AnalysisBroken('R07.9: only %d storing functions of the rational LP classes found' % k)
+
+
+def r07_10(fb, rep):
+    """R07.10: the exact solver transforms the rational LP in place (lifting, equality form, unboundedness and feasibility problems).
+    _rowTypes / _colTypes are kept per row / column of that LP: a function of solverational.hpp that adds or removes rows (columns) of
+    _rationalLP also appends to / resizes _rowTypes (_colTypes) in the same function."""
+    rep.rule('R07.10', 'exact-solver transformations that add or remove rows / columns of the rational LP also re-dimension _rowTypes / _colTypes', floor=8)
+    C = M.CLS
+    k = 0
+    for f in sorted(fb.methods_of(C), key=lambda g: g.name):
+        if not f.file.endswith('solverational.hpp') or not f.nodes:
+            continue
+        calls = [n for n in f.nodes if n.k == 'CXXMemberCallExpr' and n.obj() is not None and render(n.obj()) == '_rationalLP']
+        for dim, names, fld in (('rows', ('addRow', 'addRows', 'removeRow', 'removeRows', 'removeRowRange'), '_rowTypes'), ('columns', ('addCol', 'addCols', 'removeCol', 'removeCols', 'removeColRange'), '_colTypes')):
+            ch = [n for n in calls if n.short in names]
+            if not ch:
+                continue
+            k += 1
+            upd = [n for n in f.nodes if n.k == 'CXXMemberCallExpr' and n.short in ('append', 'reSize', 'clear', 'remove') and n.obj() is not None and render(n.obj()) == fld]
+            upd += [n for n in f.nodes if n.k == 'CXXOperatorCallExpr' and n.o == '=' and n.args() and render(strip(n.args()[0])) == fld]
+            rep.check(bool(upd), 'R07.10', '%s|%s|%s' % (f.short, dim, fld), '%s:%d' % (f.file, ch[0].l), '%s is re-dimensioned (%s)' % (fld, render(upd[0])[:40] if upd else ''),
+                      '%s changes the number of %s of the rational LP (%s) but never appends to / resizes %s: the range types no longer have one entry per %s (assertion in _isConsistent, out-of-range reads in the exact solver)' % (f.short, dim, render(ch[0])[:40], fld, dim[:-1]))
+    if k < 8:
+        raise AnalysisBroken('R07.10: only %d row/column changing transformations found in solverational.hpp' % k)
